@@ -129,13 +129,17 @@ fn extend_lifetime(
 }
 
 impl TaikoGradualDifficulty {
-    /// Passes all objects up to and including the next hit.
+    /// Passes all objects up to and including the next hit. The last hit
+    /// additionally passes all objects that come after it.
     ///
     /// Returns `None` if there is no further hit.
     fn pass_next_hit(&mut self) -> Option<()> {
-        loop {
-            let is_hit = *self.is_hit.get(self.pos)?;
+        if self.idx == self.total_hits {
+            return None;
+        }
 
+        // Only reaches the end of `is_hit` after the last hit was passed
+        while let Some(&is_hit) = self.is_hit.get(self.pos) {
             // The first difficulty object belongs to the third object since
             // each difficulty object requires the current, the last, and the
             // second to last object. Hence, the first two objects only add to
@@ -159,9 +163,13 @@ impl TaikoGradualDifficulty {
                 self.attrs.max_combo += 1;
                 self.idx += 1;
 
-                return Some(());
+                if self.idx < self.total_hits {
+                    break;
+                }
             }
         }
+
+        Some(())
     }
 }
 
